@@ -70,6 +70,14 @@ let expand (f : string list) : string option =
         | Some env -> shown_to_string (E.show_sres (E.sem call_spec (nat_of_int 200) env e))
       in
       Some (String.concat "\t" [ id; "render"; hex src; data; "S:" ^ expected ])
+  | [ id; "xtext"; src ] ->
+      let expected =
+        match E.text_spec (bytes_of_string (unhex src)) with
+        | E.TOut o -> "OK:" ^ hexb o
+        | E.TError -> "ERR"
+        | E.TOutOfDomain -> "NA"
+      in
+      Some (String.concat "\t" [ id; "render"; src; "-"; "S:" ^ expected ])
   | [ id; "xassign"; ex; parens; seps; data ] ->
       (* the right-hand side of an assignment is a complete expression *)
       let e = sexpr_of (parse_sx (unhex ex)) in
